@@ -96,7 +96,8 @@ class Ref:
             return Fraction(1), j
         if s.count(".") >= 2:
             raise Reject("two dots in subscript")
-        if strict and not re.fullmatch(r"\d+(\.\d+)?", s):
+        # a decimal may begin with its point ('.448' - the repository's own test corpus has Ca5.522(PO.448)3OH); a trailing point stays unspecified
+        if strict and not re.fullmatch(r"\d+(\.\d+)?|\.\d+", s):
             raise Unspec()
         if not re.fullmatch(r"\d*\.?\d*", s) or not re.search(r"\d", s):
             raise Unspec()
